@@ -64,10 +64,11 @@ def upgrade():
     elif op.get_bind().dialect.name == "sqlite":
         op.execute(
             """
-            -- datetime() drops fractional seconds, so re-append them.
+            -- datetime() rounds to whole seconds, so convert the whole seconds only and
+            -- re-append the fractional seconds.
             update job set
-              start_time = datetime(start_time, 'utc') || substr(start_time, 20),
-              end_time = datetime(end_time, 'utc') || substr(end_time, 20);
+              start_time = datetime(substr(start_time, 1, 19), 'utc') || substr(start_time, 20),
+              end_time = datetime(substr(end_time, 1, 19), 'utc') || substr(end_time, 20);
             """
         )
 
@@ -96,9 +97,10 @@ def downgrade():
     elif op.get_bind().dialect.name == "sqlite":
         op.execute(
             """
-            -- datetime() drops fractional seconds, so re-append them.
+            -- datetime() rounds to whole seconds, so convert the whole seconds only and
+            -- re-append the fractional seconds.
             update job set
-              start_time = datetime(start_time, 'localtime') || substr(start_time, 20),
-              end_time = datetime(end_time, 'localtime') || substr(end_time, 20);
+              start_time = datetime(substr(start_time, 1, 19), 'localtime') || substr(start_time, 20),
+              end_time = datetime(substr(end_time, 1, 19), 'localtime') || substr(end_time, 20);
             """
         )
